@@ -1090,4 +1090,14 @@ func afCopiedByte(dst AdaptationField, src AdaptationField, j int) byte {
 //@   ensures result[0] == 0x47 && result[3] == 0x20 && result[4] == 183 && result[5] == 0 && afCanonical(result)
 //@   modifies nothing
 
+// ---------------------------------------------------------------- C11: PES header bytes of a packet
+
+//@ func PESHeader(packet *Packet) (pay []byte, err error)
+//@   props C11
+//@   requires packet != nil
+//@   ensures (err == nil) == (specPUSI(packet) && specAFC(packet)%2 == 1 && specHdrLen(packet)+4 <= 188 && packet[specHdrLen(packet)] == 0 && packet[specHdrLen(packet)+1] == 0 && packet[specHdrLen(packet)+2] == 1)
+//@   ensures err == nil ==> len(pay) == 188-specHdrLen(packet) && &pay[0] == &packet[specHdrLen(packet)]
+//@   ensures err != nil ==> pay == nil
+//@   modifies nothing
+
 var _ = gots.ErrNoPayload
